@@ -1,7 +1,8 @@
 /-
   C11, layer 1 — no float reaches a tick.
   `Gen.taintFns` (regenerated from /repo on every run) lists, for every function of the modelled
-  source files, its assignments, its *tick sinks* (stores into a `.time` field, `time=` keyword
+  source files, its assignments, its *tick sinks* (stores into a `.time` field — and into any other attribute, since attribute reads are
+  taken to be int-typed —, `time=` keyword
   arguments, the third positional argument of `Message`, every argument handed to a function defined in
   the modelled files (parameters are int-typed by the induction hypothesis, so arguments must be), the values returned by the duration / velocity-bin helpers, tick values formatted into
   tokens) and its return expressions — each as the variables read, whether a float-producing node
